@@ -96,7 +96,7 @@ Logged ==
   /\ TLCSet(1, IF l + 1 > TLCGet(1) THEN l + 1 ELSE TLCGet(1))
 
 ActorSilent(a) ==
-  \/ ReleaseFailed(a) \/ Activate(a) \/ StartedSend(a) \/ SupStarted(a)
+  \/ ReleaseFailed(a) \/ ReportStartFail(a) \/ Activate(a) \/ StartedSend(a) \/ SupStarted(a)
   \/ RecvStop(a) \/ RecvMsg(a) \/ SelfStop(a) \/ ReplyStep(a)
   \/ BeginStop(a) \/ CloseRx(a) \/ ReleaseName(a) \/ SupTerminal(a)
 
